@@ -107,6 +107,58 @@ func TestVerifC05Sockets(t *testing.T) {
 					}
 				}
 			}
+			// a TCP member refuses connections for a while but stays registered: what is dispatched to
+			// it is lost, every other member still gets exactly its share - one of every k
+			if scheme == "tcp" {
+				for o := 0; o < noutage && run.Violations() <= 3; o++ {
+					n0 := w.names[0]
+					set := append([]string{}, n0.pool[:3]...)
+					dynamicHostResolver.addressResolved(n0.name, append([]string{}, set...), nil)
+					n0.apply(true, set)
+					trace := []string{"n0:{1,2,3}", "one tcp member refuses connections but stays registered"}
+					if !w.quiesce(trace) || !w.dispatchProbe(trace) {
+						break
+					}
+					victim := fmt.Sprintf("%s:%d", set[rnd.Intn(3)], n0.port)
+					w.sinks.dropTCP(victim)
+					time.Sleep(5 * time.Millisecond)
+					id := fmt.Sprintf("w%dt%d", w.id, o)
+					const cycles = 3
+					for i := 0; i < 3*cycles; i++ {
+						w.fx.inject("127.1.0.1", 5060, w.request("OPTIONS", id, fmt.Sprintf("%s-%d", id, i), "a", ""))
+					}
+					got := w.sinks.wait(id, 2*cycles, 2*time.Second)
+					time.Sleep(10 * time.Millisecond)
+					got = w.sinks.wait(id, 99, 0)
+					w.sinks.forget(id)
+					count := map[string]int{}
+					for _, a := range got {
+						count[a]++
+					}
+					bad := len(got) != 2*cycles || count[victim] != 0
+					for _, a := range w.members() {
+						if a != victim && count[a] != cycles {
+							bad = true
+						}
+					}
+					if bad {
+						run.Violation("with one registered member unreachable the others no longer get one dispatch of every k", map[string]any{"members": w.members(), "unreachable": victim, "dispatches": 3 * cycles, "arrivals_per_member": count, "scheme": scheme})
+					}
+					if err := w.sinks.listenTCP(victim); err != nil {
+						run.Inconclusive(1)
+						break
+					}
+					atomic.AddInt64(&outages, 1)
+					atomic.AddInt64(&stats.steps, 1)
+					run.Eval(fmt.Sprintf("tcp-outage-w%d-%d", wi, o))
+					dynamicHostResolver.addressResolved(n0.name, []string{}, nil)
+					n0.apply(true, nil)
+					n0.ever = map[string]bool{}
+					if !w.quiesce([]string{"reset"}) {
+						return
+					}
+				}
+			}
 			// the first member arrives while the loop is busy with traffic: every request submitted
 			// after the registration has completed must be dispatched to it
 			name := w.names[0]
